@@ -600,10 +600,11 @@ where
     fn execute(&self, _problem: &P, state: &mut State<P>) -> ExecResult<()> {
         let mut populations = state.populations_mut();
         for solution in populations.current_mut().as_solutions_mut() {
-            let [start, end]: [_; 2] = (0..solution.len())
+            let [a, b]: [_; 2] = (0..solution.len())
                 .choose_multiple(&mut *state.random_mut(), 2)
                 .try_into()
                 .unwrap();
+            let (start, end) = (a.min(b), a.max(b));
             solution[start..end].reverse();
         }
         Ok(())
@@ -676,10 +677,11 @@ where
         let mut rng = state.random_mut();
 
         for solution in populations.current_mut().as_solutions_mut() {
-            let [start, end]: [_; 2] = (0..solution.len())
+            let [a, b]: [_; 2] = (0..solution.len())
                 .choose_multiple(&mut *rng, 2)
                 .try_into()
                 .unwrap();
+            let (start, end) = (a.min(b), a.max(b));
             let index = rng.gen_range(0..start);
             f::translocate_slice(solution, start..end, index);
         }
